@@ -20,6 +20,8 @@ ANCHORS = ["varintAdaptiveEncodeWith", "varintAdaptiveDecode", "varintFOREncode"
 
 def analyse(mod, run, label):
     w = World(mod)
+    from ..bounds import Bounds
+    B6 = Bounds(w)
     # ---- S1 ----
     for g in mod.globals.values():
         run.check(g["constant"], "S1-no-mutable-static", {"global": g["name"]},
@@ -61,6 +63,13 @@ def analyse(mod, run, label):
         for (mi, ri, why) in ar:
             run.fail(Finding("S3-array-partially-written", f.name, "malloc@%s" % mi.line, "reader", why, loc=loc(ri)))
         for _ in range(max(0, ntr - len(ar))): run.ok("S3-positional-arrays-filled", {"fn": f.name})
+        # S6: scratch arrays filled by a counted loop are read by callees only over the filled prefix
+        for (ci6, an6, rd6, wr6, ok6) in scratch_reads_beyond_written(f, w, B6):
+            run.s6 = getattr(run, "s6", 0) + 1
+            run.check(ok6, "S6-scratch-read-within-written-prefix", {"fn": f.name, "array": an6, "callee": ci6.get("callee"), "reads": repr(rd6), "written": repr(wr6)},
+                      Finding("S6-scratch-read-beyond-written", f.name, an6, "call:%s" % ci6.get("callee"),
+                              "%s hands the local array '%s' to %s, which reads %s bytes of it, but only the first %r bytes have been written (element by element in a loop): the rest is stack residue and the result depends on it" % (
+                                  f.name, an6, ci6.get("callee"), "an unbounded number of" if rd6 is None else repr(rd6), wr6), loc=loc(ci6)))
         # S4: a zero-filled output region that is then OR-ed into is advanced over by exactly its own size
         for (ms, adv, same) in filled_region_advances(f):
             run.s4 = getattr(run, "s4", 0) + 1
@@ -199,6 +208,44 @@ def equal_exact(f, a, b):
         return ea is not None and eb is not None and ea == eb
     except Unbounded:
         return False
+
+
+def scratch_reads_beyond_written(f, w, B):
+    """S6: a local scratch array that is filled element by element in a counted loop (A[i] = ... for i < m) and never initialised as
+    a whole may only be handed to a callee that reads at most the filled prefix.  Yields (call, array name, read extent, written extent, ok)."""
+    from ..lin import Lin
+    fi, F, P = B.fp(f)
+    loops = f.loops()
+    for a in f.insts():
+        if a.op != "alloca" or a.d.get("alloc_size", 0) < 64: continue
+        root = ("alloca", a.id)
+        whole = False; prefix = None
+        for i in f.insts():
+            if i.op == "store":
+                r, off = fi.ptr(i.ops[1])
+                if r != root: continue
+                if i["size"] >= a.d.get("alloc_size", 0): whole = True; continue
+                # A[i] = v with i the unit counter of an enclosing loop `i < m`
+                for h, body in loops.items():
+                    if i.block.id not in body: continue
+                    t = f.bmap[h].term
+                    if t.op != "br" or len(t.ops) != 3 or t.ops[0]["k"] != "inst": continue
+                    ci = f.imap[t.ops[0]["v"]]
+                    if ci.op != "icmp" or ci["pred"] not in ("ult", "slt", "ne"): continue
+                    il = fi.lin(ci.ops[0])
+                    if len(il.t) != 1 or il.c != 0: continue
+                    d = off - il.scale(i["size"])
+                    if d.is_const() and d.c == 0: prefix = fi.lin(ci.ops[1]).scale(i["size"])
+            elif i.op == "call":
+                c = i.get("callee") or ""
+                if c.startswith(("llvm.memset", "llvm.memcpy", "llvm.memmove")) and fi.ptr(i.ops[0])[0] == root: whole = True
+        if whole or prefix is None: continue
+        for (i, kind, off, sz) in B.accesses(f, root, "r"):
+            if i.op != "call" or (i.get("callee") or "").startswith("llvm."): continue
+            szs = sz if isinstance(sz, list) else [sz]
+            if szs[-1] is None: yield (i, a.d.get("varname", "array"), None, prefix, False); continue
+            ok = P.prove_at(off + szs[-1] - prefix, i.block)
+            yield (i, a.d.get("varname", "array"), off + szs[-1], prefix, ok)
 
 
 def filled_region_advances(f):
